@@ -107,6 +107,7 @@ type world struct {
 	// modes by field name
 	modes   map[string]fieldMode
 	latency bool
+	hang    bool // some resolver calls block on a slow backend until their context ends
 	ver     map[string]int // datum versions (live harness)
 	live    *liveState     // non-nil in the live (websocket) harness
 }
@@ -213,6 +214,18 @@ func (w *world) point(ctx context.Context, field string, id int64) error {
 		// the correct reader protocol: register the dependency before reading
 		if err := w.live.dep(ctx, field, id); err != nil {
 			return err
+		}
+	}
+	if w.hang && w.c.Biased(2, 990, "resolver-waits-on-backend") > 0 {
+		// a backend call that takes 20 s and gives up as soon as the
+		// computation's context is cancelled (as database/sql and HTTP clients do)
+		w.c.Fault("resolver-blocked-on-backend")
+		tm := time.NewTimer(20 * time.Second)
+		select {
+		case <-ctx.Done():
+			tm.Stop()
+			return ctx.Err()
+		case <-tm.C:
 		}
 	}
 	if w.latency && w.c.Biased(4, 600, "resolver-latency") > 0 {
